@@ -41,6 +41,9 @@ CONSTANTS
     MinDists,   \* min_distance arguments of remove_overlapping
     TlLists,    \* set of index sequences into trks (arguments of DropletTrackList(..))
     MinDurs,    \* min_duration arguments of remove_short_tracks
+    Images,     \* Seq(image): one-dimensional binary images (sequences of 0/1; cells of width 2 starting at 0) that can be analysed
+    ImgLists,   \* set of index sequences into Images (the frames of a storage)
+    LocWidths,  \* interface_width arguments of locate_droplets (-1: none)
     TrackMethods, \* arguments of from_emulsion_time_course: records [meth |-> "overlap" | "distance", md |-> max_dist or -1]
     MaxDrops, MaxEms, MaxRefs, MaxEv, MaxTcs, MaxTrks, MaxLen, Depth,
     Ops,        \* names of the operations enabled in this instance
@@ -536,6 +539,46 @@ TlRemoveShort ==
         Commit([op |-> "TlRemoveShort", l |-> l, md |-> md],
                [st EXCEPT !.tls[l] = SelectSeq(@, LAMBDA k : Duration(st.trks[k].times) > md)], "")
 
+(* --------------------- image analysis feeding the collections (1-D, exact) --------------------- *)
+\* locate_droplets on a one-dimensional image (threshold 1/2, no refinement): one droplet per maximal run of ones, at the
+\* centre of the run, with half its length as radius -- LocateCart.tla in one dimension without periodic axes, where the
+\* equal-volume "spheres" are the runs themselves and never overlap.  Cells have width 2, so everything is an integer.
+RECURSIVE RunsOf(_, _, _)
+RunsOf(img, i, acc) ==
+    IF i > Len(img) THEN acc
+    ELSE IF img[i] = 0 THEN RunsOf(img, i + 1, acc)
+    ELSE IF Len(acc) > 0 /\ acc[Len(acc)][2] = i - 1 THEN RunsOf(img, i + 1, [acc EXCEPT ![Len(acc)] = <<@[1], i>>])
+    ELSE RunsOf(img, i + 1, Append(acc, <<i, i>>))
+Located(img, w) ==
+    LET rs == RunsOf(img, 1, <<>>)
+    IN [k \in Range(Len(rs)) |-> [k |-> IF w < 0 THEN "S1" ELSE "D1", r |-> rs[k][2] - rs[k][1] + 1,
+                                  x |-> <<rs[k][1] + rs[k][2] - 1, 1>>, w |-> w]]
+\* a new emulsion of new droplets; an image without droplets gives an emulsion without layout
+EmFromVals(s, vs) ==
+    LET base == Len(s.drops)
+    IN AllocEm([s EXCEPT !.drops = @ \o vs], [i \in Range(Len(vs)) |-> base + i], IF Len(vs) = 0 THEN "none" ELSE vs[1].k)
+EmLocate ==
+    /\ Go("EmLocate") /\ Len(st.ev) < MaxEv /\ RoomE(1)
+    /\ \E g \in Range(Len(Images)), w \in LocWidths :
+        LET vs == Located(Images[g], w)
+            a == EmFromVals(st, vs)
+        IN /\ RoomD(Len(vs))
+           /\ Commit([op |-> "EmLocate", g |-> g, w |-> w], [a.s EXCEPT !.ev = Append(@, a.id)], "")
+\* EmulsionTimeCourse.from_storage: the frames of a storage analysed one after the other (C14's offline analysis), times
+\* 0, 1, 2, .. as written by the storage
+RECURSIVE FramesOf(_, _, _, _)
+FramesOf(s, L, w, acc) ==
+    IF Len(L) = 0 THEN [s |-> s, ids |-> acc]
+    ELSE LET a == EmFromVals(s, Located(Images[Head(L)], w)) IN FramesOf(a.s, Tail(L), w, Append(acc, a.id))
+TcFromStorage ==
+    /\ Go("TcFromStorage") /\ Len(st.tcs) < MaxTcs
+    /\ \E L \in ImgLists, w \in LocWidths :
+        LET nd == LET RECURSIVE T(_) T(q) == IF Len(q) = 0 THEN 0 ELSE Len(RunsOf(Images[Head(q)], 1, <<>>)) + T(Tail(q)) IN T(L)
+            f == FramesOf(st, L, w, <<>>)
+        IN /\ Len(L) > 0 /\ RoomE(Len(L)) /\ RoomD(nd)
+           /\ Commit([op |-> "TcFromStorage", L |-> L, w |-> w],
+                     [f.s EXCEPT !.tcs = Append(@, [times |-> DefaultTimes(Len(L)), ems |-> f.ids])], "")
+
 (* ------------------- tracking on the heap: from_emulsion_time_course ------------------- *)
 \* The tracker reads a time course and builds NEW tracks of NEW droplet objects (DropletTrack.append copies), so the
 \* time course, its emulsions and their droplets stay what they were and nothing of the result aliases the input.
@@ -632,7 +675,7 @@ TlLoad ==
                         [l.s EXCEPT !.trks = @ \o l.trs, !.tls = Append(@, [i \in Range(Len(sets)) |-> base + i])], "")
 
 Next ==
-    \/ TlFromTc \/ TlSave \/ TlLoad
+    \/ TlFromTc \/ TlSave \/ TlLoad \/ EmLocate \/ TcFromStorage
     \/ EmSave \/ EmLoad \/ TcSave \/ TcLoad \/ TrkSave \/ TrkLoad
     \/ TlNew \/ TlSlice \/ TlRemoveShort
     \/ EmNew \/ EmAppend \/ EmExtend \/ EmCopy \/ EmSlice \/ EmIndex \/ EmAdd \/ EmRemoveSmall
